@@ -683,6 +683,10 @@ class TaskScenario(ScenarioData):
                 self.isRunAway = True
                 return False
 
+        # The slot in which the task completed was not seen by the loop body above
+        if not forward and first_booked_slot is None and self.doneEffort > previous_effort:
+            first_booked_slot = self.currentSlotIdx
+
         # Set start/end dates based on scheduling direction
         if forward:
             # For forward scheduling: start is at the beginning, end is at current position
